@@ -90,3 +90,36 @@ def abstract_value(name, *args):
 
 def concat(lists):
     return [x for sub in lists for x in sub]
+
+
+# ----------------------------------------------------------------------------------------------- key views (C18)
+def key_is_package(k):
+    return isinstance(k, str) and k.endswith("P")
+
+
+def key_is_numeric(k):
+    try:
+        int(k)
+        return True
+    except (ValueError, TypeError):
+        return False
+
+
+def key_number(k):
+    return int(k)
+
+
+# ----------------------------------------------------------------------------------------------- set / sort (C18)
+def dedup(xs):
+    return sorted(set(xs))
+
+
+def sort_int(xs):
+    return sorted(xs, key=int)
+
+
+def sort_plain(xs):
+    return sorted(xs)
+
+
+NATIVE.update({"dedup": dedup, "sort_int": sort_int, "sort_plain": sort_plain})
